@@ -146,7 +146,7 @@ def leaf_elem(root_level):
 @st.composite
 def elems(draw, depth, root_level=False):
     """A list of scope elements; namespaces nest up to `depth` further levels."""
-    n = draw(st.integers(1, 6) if root_level else st.integers(0, 4))
+    n = draw(st.sampled_from([0, 1, 1, 2, 2, 3, 3, 4, 5, 6]) if root_level else st.integers(0, 4))
     out = []
     names_of_ns = []
     for _ in range(n):
